@@ -9,8 +9,9 @@ Lits == [pre : BOOLEAN, post : BOOLEAN, nph : 1..2,
          ty : PhTypes, mod : {"none", "ws", "width", "fill", "left", "center", "right", "sign", "minus", "alt", "zero", "prec"}]
 ArgForms == {"none", "pos_field", "pos_expr", "named_match", "named_nomatch", "two"}
 
-Cases == [hasAttr : {TRUE}, nfields : 1..2, named : BOOLEAN, D : DerivedTraits, lit : Lits, args : ArgForms]
-         \cup [hasAttr : {FALSE}, nfields : 1..2, named : BOOLEAN, D : DerivedTraits \ {"Debug"}, lit : {NoLit}, args : {"none"}]
+Shareds == {"none", "bare_variant", "wrap"}
+Cases == [hasAttr : {TRUE}, nfields : 1..2, named : BOOLEAN, D : DerivedTraits, lit : Lits, args : ArgForms, sh : Shareds]
+         \cup [hasAttr : {FALSE}, nfields : 1..2, named : BOOLEAN, D : DerivedTraits \ {"Debug"}, lit : {NoLit}, args : {"none"}, sh : Shareds]
 
 \* keep the space to the interesting part: text/second placeholder/modifiers are varied one at a time
 Interesting(x) ==
@@ -21,17 +22,21 @@ Interesting(x) ==
     /\ (x.named => x.lit.ref = "name_field" \/ ~x.hasAttr)          \* field names only matter there
     /\ (x.lit.mod \notin {"none", "ws"} => x.args \in {"none", "pos_field"})
     /\ ((x.lit.pre \/ x.lit.post \/ x.lit.nph = 2) => x.lit.ty \in {"Display", "Debug"} /\ x.D \in {"Display", "Debug"})
+    /\ (x.sh # "none" => /\ x.D # "Debug"                        \* no enum-level format on Debug (C07)
+                          /\ x.lit.mod = "none" /\ ~x.lit.pre /\ ~x.lit.post /\ x.lit.nph = 1
+                          /\ x.args \in {"none", "pos_field"} /\ x.lit.ref \in {"next", "name_field", "pos1"})
     /\ (x.lit.ref = "name_other" => x.args \in {"none", "named_match", "pos_field"})
 
-Init == c = [hasAttr |-> FALSE, nfields |-> 0, named |-> FALSE, D |-> "Display", lit |-> NoLit, args |-> "none"]
+Init == c = [hasAttr |-> FALSE, nfields |-> 0, named |-> FALSE, D |-> "Display", lit |-> NoLit, args |-> "none", sh |-> "none"]
 Next == c.nfields = 0 /\ c' \in {x \in Cases : Interesting(x)}
 Spec == Init /\ [][Next]_c
 
 P_C05_Iff == c.nfields # 0 => Iff(c.hasAttr, c.nfields, c.D, c.lit, c.args)
+P_C05_IffShared == c.nfields # 0 => IffShared(c.sh, c.hasAttr, c.nfields, c.D, c.lit, c.args)
 \* non-vacuity: pass-through only ever names the placeholder's own trait
 P_C05_Trait == c.nfields # 0 /\ c.hasAttr =>
     LET d == DocOutcome(c.hasAttr, c.nfields, c.D, c.lit, c.args) IN d[1] = "pass" => d[2] = TraitOf(c.lit.ty)
 Emit == EmitCases /\ c.nfields # 0 =>
-    PrintT(<<"CASE", ToJson([c |-> c, doc |-> DocOutcome(c.hasAttr, c.nfields, c.D, c.lit, c.args),
-                             impl |-> ImplOutcome(c.hasAttr, c.nfields, c.D, c.lit, c.args)])>>)
+    PrintT(<<"CASE", ToJson([c |-> c, doc |-> DocShared(c.sh, c.D, DocOutcome(c.hasAttr, c.nfields, c.D, c.lit, c.args)),
+                             impl |-> ImplShared(c.sh, c.D, ImplOutcome(c.hasAttr, c.nfields, c.D, c.lit, c.args))])>>)
 =============================================================================
